@@ -184,6 +184,35 @@ def tmpOf : List Op → Option String
   | .openF _ name _ _ _ _ :: _ => some name
   | _ => none
 
+/-- Somewhere in `tail` the directory is opened and fsynced, and only bookkeeping follows. -/
+def tailDirSync : List Op → Bool
+  | [] => false
+  | op :: rest =>
+    (match op, rest with
+      | .openDir d, .fsync d' :: r2 => d = d' && r2.all Op.harmless
+      | _, _ => false) || tailDirSync rest
+
+/-- What follows the rename in a trace of the atomic-replace shape. -/
+def tailOf (tr : List Op) : List Op :=
+  match tr with
+  | .openF fd _ _ _ _ _ :: rest =>
+    match (splitWrites fd rest).2 with
+    | _ :: _ :: _ :: tail => tail
+    | _ => []
+  | _ => []
+
+/-- Atomic replacement that also makes the rename durable (directory fsync) before returning. -/
+def isDurableReplace (tr : List Op) (path : String) (new : Bytes) : Bool :=
+  isAtomicReplace tr path new && tailDirSync (tailOf tr)
+
+/-- A sequence of saves, each an atomic durable replacement whose temporary name is free when
+the save starts. -/
+def SavesOK (path : String) : FS → List (List Op × Bytes) → Prop
+  | _, [] => True
+  | s, sv :: rest =>
+    isDurableReplace sv.1 path sv.2 = true ∧ (∀ t, tmpOf sv.1 = some t → s.dir t = none) ∧
+      SavesOK path (run sv.1 s) rest
+
 /-- The canonical atomic-replace trace. -/
 def atomicTrace (fd : Nat) (tmp path : String) (trunc : Bool) (chunks : List Bytes) (tail : List Op) : List Op :=
   .openF fd tmp true true trunc false ::
